@@ -39,7 +39,9 @@ ASSUMPTIONS = [
     'pairs of valid cases on one Builder instance' % len(fam.VALID),
     'structural snapshot = recursive dump of dataclass fields, lists, dicts, sets, enums and the '
     'NamespaceTree parent chain (object identity is not part of the observable state)',
-    'process state outside dznpy modules (e.g. CPython caches) is not observed',
+    'process state outside dznpy modules (e.g. CPython caches) is not observed directly; it is covered '
+    'indirectly: every successful step and every pair is compared with the same build done as the first and '
+    'only build of a fresh interpreter (one child process per case, random hash seed)',
 ]
 OUTSIDE = 'cases outside the family; sequences are covered by induction, not enumerated beyond pairs'
 
@@ -109,11 +111,21 @@ def _standalone_support(prefix):
              mutex_wrapped.create_header(ns))]
 
 
-def _step(ci: int, fault: int) -> bool:
-    """One build step from case ci (fault < 0: the valid case)."""
+def _step(ci: int, fault: int, spelling: int = 0) -> bool:
+    """One build step from case ci (fault < 0: the valid case).  spelling: how the encapsulee name is
+    given (0 NamespaceIds, 1 dotted str, 2 '::' str, 3 list of str - all accepted by build())."""
     case, pc = fam.VALID[ci]
     if fault < 0:
-        thunk = lambda: fam.make_configuration(case, pc)  # noqa: E731
+        def thunk():
+            cfg = fam.make_configuration(case, pc)
+            ids = list(cfg.fqn_encapsulee_name.items)
+            if spelling == 1:
+                cfg.fqn_encapsulee_name = '.'.join(ids)
+            elif spelling == 2 and len(ids) > 1:
+                cfg.fqn_encapsulee_name = '::'.join(ids)
+            elif spelling == 3:
+                cfg.fqn_encapsulee_name = ids
+            return cfg
     else:
         thunk = c13.build_fault(case, pc, fault)
         if thunk is None:
@@ -147,18 +159,71 @@ def _step(ci: int, fault: int) -> bool:
         support = [(n, c) for n, c, _ in first[1][2:]]
         if support != _standalone_support(case.prefix):
             return False
+        if fault < 0 and spelling == 0:   # ... and equal to the first-and-only build of a fresh interpreter
+            import hashlib
+            mine = [[n, hashlib.sha256(c.encode()).hexdigest(), h] for n, c, h in first[1]]
+            if mine != _fresh(ci):
+                return False
     return True
 
 
-_FRESH = {}
+# ---- reference: every valid case built as the FIRST and ONLY build of a fresh interpreter -------------
+_REF_ENV = 'VF_C12_REFERENCE'
+_CHILD = '''
+import sys, json, hashlib
+sys.path.insert(0, %(verif)r)
+from vf import family as fam
+from dznpy.adv_shell import Builder
+ci = int(sys.argv[1])
+case, pc = fam.VALID[ci]
+files = Builder().build(fam.make_configuration(case, pc)).files
+print(json.dumps([[f.filename, hashlib.sha256(f.contents.encode()).hexdigest(), f.hash] for f in files]))
+'''
+
+
+def _compute_references() -> dict:
+    import json
+    import os
+    import subprocess
+    import tempfile
+    from concurrent.futures import ThreadPoolExecutor
+    path = os.environ.get(_REF_ENV)
+    if path and os.path.exists(path):
+        with open(path, encoding='utf-8') as fh:
+            return {int(k): v for k, v in json.load(fh).items()}
+    verif = os.path.dirname(os.path.dirname(os.path.abspath(__file__)))
+    src = _CHILD % {'verif': verif}
+    env = dict(os.environ, PYTHONPATH=verif, PYTHONHASHSEED='random')
+
+    def one(ci):
+        proc = subprocess.run([sys.executable, '-c', src, str(ci)], capture_output=True, text=True, env=env,
+                              timeout=300, check=False)
+        return ci, json.loads(proc.stdout.strip().splitlines()[-1]) if proc.returncode == 0 else None
+
+    with ThreadPoolExecutor(max_workers=os.cpu_count() or 4) as pool:
+        refs = dict(pool.map(one, range(len(fam.VALID))))
+    fd, path = tempfile.mkstemp(prefix='vf_c12_ref_', suffix='.json')
+    with os.fdopen(fd, 'w', encoding='utf-8') as fh:
+        json.dump(refs, fh)
+    os.environ[_REF_ENV] = path          # inherited by the CrossHair worker processes of this run
+    import atexit
+    atexit.register(lambda: os.path.exists(path) and os.remove(path))
+    return refs
+
+
+_FRESH = _compute_references()
+
+
+def _digest(files):
+    import hashlib
+    return [[f.filename, hashlib.sha256(f.contents.encode()).hexdigest(), f.hash] for f in files]
 
 
 def _fresh(ci: int):
-    if ci not in _FRESH:
-        case, pc = fam.VALID[ci]
-        _FRESH[ci] = [(f.filename, f.contents, f.hash)
-                      for f in Builder().build(fam.make_configuration(case, pc)).files]
-    return _FRESH[ci]
+    ref = _FRESH.get(ci)
+    if ref is None:
+        raise RuntimeError(f'no fresh-process reference for case {ci}')
+    return ref
 
 
 def _pair(ci: int, cj: int, fault_first: int) -> bool:
@@ -176,14 +241,18 @@ def _pair(ci: int, cj: int, fault_first: int) -> bool:
         builder.build(thunk())
     except Exception:  # pylint: disable=broad-except
         pass
-    got = [(f.filename, f.contents, f.hash)
-           for f in builder.build(fam.make_configuration(case_j, pc_j)).files]
+    got = _digest(builder.build(fam.make_configuration(case_j, pc_j)).files)
     return got == ref
 
 
 def h_step(ci: int, fault: int) -> bool:
     """The inductive step from every valid and every single-fault case."""
     return run_native(_step, pick(range(len(fam.VALID)), ci), pick(range(-1, c13.NFAULTS), fault + 1))
+
+
+def h_step_spelling(ci: int, spelling: int) -> bool:
+    """The step for valid cases whose encapsulee name is given as str / '::' str / list."""
+    return run_native(_step, pick(range(len(fam.VALID)), ci), -1, pick(range(1, 4), spelling - 1))
 
 
 def h_pair(ci: int, cj: int, ff: int) -> bool:
@@ -199,6 +268,10 @@ SPECS = [
       shards=lambda p: [f'ci % 16 == {i}' for i in range(16)],
       bounds=f'{NV} valid cases x (no fault + {c13.NFAULTS} single faults): inputs and dznpy global state '
              'unchanged, repeat build equal, support files equal stand-alone generation'),
+    H('h_step_spelling', 'deep', pre=[f'0 <= ci < {NV}', '1 <= spelling <= 3'],
+      quick=dict(ct=280, pt=60), thorough=dict(ct=900, pt=60),
+      shards=lambda p: [f'ci % 8 == {i}' for i in range(8)],
+      bounds=f'{NV} valid cases x encapsulee name given as dotted str, "::" str, list of str'),
     H('h_pair', 'deep', pre=[f'0 <= ci < {NV}', f'0 <= cj < {NV}', '0 <= ff < {F}', 'ci % {S} == 0'],
       quick=dict(F=2, S=4, ct=280, pt=60), thorough=dict(F=5, S=1, ct=1700, pt=60),
       shards=lambda p: [f'cj % 16 == {i}' for i in range(16)],
